@@ -13,11 +13,14 @@ MinOf(S) == CHOOSE m \in S : \A o \in S : m <= o
 (* ---- op "yuv_sweep": w x 1 pictures (w = Len(ys), 1..8) y = ys, chroma sample j (0-based) = SwC(v, j) for all (cb, cr):  *)
 (* ---- pixel k uses chroma sample (k-1) div 2; neighbouring chroma samples differ; over all (cb, cr) every pixel position  *)
 (* ---- meets every chroma pair.  Widths that are not multiples of four also reach the conversion of left-over pixels. ---- *)
+(* ---- with "same" all chroma samples of the row are equal (flat chroma: whole groups of neutral, or of any one, colour) ---- *)
 SwC(v, j) == ((IF j % 2 = 0 THEN v ELSE 255 - v) + 64 * (j \div 2)) % 256
-SwCb(i, k) == SwC(i \div 256, (k - 1) \div 2)
-SwCr(i, k) == SwC(i % 256, (k - 1) \div 2)
 SweepOk(e) ==
-    LET w == Len(e.ys) IN
+    LET w == Len(e.ys)
+        same == "same" \in DOMAIN e /\ e.same
+        SwCb(i, k) == IF same THEN i \div 256 ELSE SwC(i \div 256, (k - 1) \div 2)
+        SwCr(i, k) == IF same THEN i % 256 ELSE SwC(i % 256, (k - 1) \div 2)
+    IN
     IF e.ret # "ok" THEN Diag("IMPL", "yuv-outcome", [ret |-> e.ret, ys |-> e.ys])
     ELSE IF w \notin 1..8 \/ Len(e.px) # 65536 * w THEN Diag("HARNESS", "sweep-length", Len(e.px))
     ELSE LET bad == {i \in 0..65535 : \E k \in 1..w :
